@@ -24,11 +24,14 @@ GeoFails(e) ==
         THEN {"CosLat|area_weighted_connectivity"} ELSE {})
   \cup (IF \E a \in 1..n : ~Close(o.maxld6[a], MaxN(LAMBDA b : o.A[a][b] * o.ang[a][b], 1, n, 0), 5)
         THEN {"Consistent|max_link_distance"} ELSE {})
+  \* the distances the grid serves after a network on it has been analysed are the same distances
+  \cup (IF o.ang2 # o.ang THEN {"Stable|angular_distance"} ELSE {})
 EucFails(e) ==
   LET o == e.obs  n == Len(e.pts) IN
   (IF o.sym # 1 \/ o.diag0 # 1 THEN {"Symmetric|euclidean_distance"} ELSE {})
   \cup (IF \E a \in 1..n : \E b \in 1..n : ~SqrtOK(o.d3[a][b], SqDist(e.pts[a], e.pts[b]))
         THEN {"ClosedForm|euclidean_distance"} ELSE {})
+  \cup (IF o.d3b # o.d3 THEN {"Stable|euclidean_distance"} ELSE {})
 \* all tuples of the Cartesian product of the axes, as a set; each exactly once
 ProductSet(axes) == IF Len(axes) = 2 THEN {<<a, b>> : a \in {axes[1][k] : k \in 1..Len(axes[1])}, b \in {axes[2][k] : k \in 1..Len(axes[2])}}
                     ELSE {<<a, b, c>> : a \in {axes[1][k] : k \in 1..Len(axes[1])}, b \in {axes[2][k] : k \in 1..Len(axes[2])},
